@@ -500,18 +500,34 @@ End JobProofs.
 
 (** ** the reRun counter machine: along any chain of runs (any variant, any sink, kills, appended
     entities, cron firings) the number of re-runs is bounded by the retries of the handler *)
+Lemma run_any_pending {E : Type} (inner : nat -> list E -> option Z) v cfg full src (st : jstate E) :
+  let r := fst (run_any inner v cfg full src st) in
+  let st' := snd (run_any inner v cfg full src st) in
+  j_retries st' = r_retries r
+  /\ (r_pending r = true ->
+      c_rerun cfg = true /\ (0 < j_retries st)%Z /\ r_retries r = (j_retries st - 1)%Z
+      /\ exists c, r_err r = PInner c)
+  /\ (r_pending r = false -> r_retries r = j_retries st).
+Proof.
+  unfold run_any. destruct full; [|apply run_pending].
+  set (st0 := {| j_tok := 0; j_wrapped := j_wrapped st; j_ws := j_ws st; j_retries := j_retries st;
+                 j_lastProcessed := j_lastProcessed st |}).
+  pose proof (run_pending inner v cfg src st0) as P.
+  destruct (run inner v cfg src st0) as [r st']. exact P.
+Qed.
+
 Section ChainProofs.
   Variable inner : nat -> list Z -> option Z.
 
   Definition pendings (rs : list (runrec Z)) : nat := length (filter (fun r => r_pending r) rs).
 
-  Theorem chain_pending_bound v cfg : forall fuel n adds crons (st : jstate Z),
-    (Z.of_nat (pendings (chain inner v cfg fuel n adds crons st)) <= Z.max 0 (j_retries st))%Z.
+  Theorem chain_pending_bound v cfg full : forall fuel n adds crons (st : jstate Z),
+    (Z.of_nat (pendings (chain inner v cfg full fuel n adds crons st)) <= Z.max 0 (j_retries st))%Z.
   Proof.
     induction fuel as [|f IH]; intros n adds crons st; [cbn; lia|].
     cbn [chain].
-    pose proof (run_pending inner v cfg (zseq 0 n) st) as P.
-    destruct (run inner v cfg (zseq 0 n) st) as [r st'] eqn:R. cbn [fst snd] in P.
+    pose proof (run_any_pending inner v cfg full (zseq 0 n) st) as P.
+    destruct (run_any inner v cfg full (zseq 0 n) st) as [r st'] eqn:R. cbn [fst snd] in P.
     destruct P as (Hret & Hp & Hnp).
     destruct (r_pending r) eqn:Hpend.
     - destruct (Hp eq_refl) as (_ & Hpos & Hdec & _).
@@ -526,14 +542,14 @@ Section ChainProofs.
   Qed.
 
   (** every run that schedules a re-run was recorded as failed with a sink error *)
-  Theorem chain_pending_failed v cfg : forall fuel n adds crons (st : jstate Z),
+  Theorem chain_pending_failed v cfg full : forall fuel n adds crons (st : jstate Z),
     Forall (fun r => r_pending r = true -> c_rerun cfg = true /\ exists c, r_err r = PInner c)
-           (chain inner v cfg fuel n adds crons st).
+           (chain inner v cfg full fuel n adds crons st).
   Proof.
     induction fuel as [|f IH]; intros n adds crons st; [constructor|].
     cbn [chain].
-    pose proof (run_pending inner v cfg (zseq 0 n) st) as P.
-    destruct (run inner v cfg (zseq 0 n) st) as [r st'] eqn:R. cbn [fst snd] in P.
+    pose proof (run_any_pending inner v cfg full (zseq 0 n) st) as P.
+    destruct (run_any inner v cfg full (zseq 0 n) st) as [r st'] eqn:R. cbn [fst snd] in P.
     destruct P as (_ & Hp & _).
     assert (Hr : r_pending r = true -> c_rerun cfg = true /\ exists c, r_err r = PInner c).
     { intros H. destruct (Hp H) as (? & _ & _ & ?). auto. }
@@ -546,7 +562,7 @@ End ChainProofs.
 Lemma refuted_stale_error :
   let cfg := {| c_batch := 100; c_log := true; c_maxItems := 0; c_rerun := true; c_kill := None |} in
   let obs v := map (fun r => (r_err r, reported (r_log r), r_pending r))
-                   (chain (scripted [1;4;7]%Z []) v cfg 60 10 [] 0 (j_init 2)) in
+                   (chain (scripted [1;4;7]%Z []) v cfg false 60 10 [] 0 (j_init 2)) in
   obs VCurrent = [(PInner 7, [1;4;7], true); (PInner 7, [], true); (PInner 7, [], false)]%Z
   /\ obs VFixed = [(PInner 7, [1;4;7], true); (POk, [], false)]%Z.
 Proof. vm_compute. split; reflexivity. Qed.
@@ -554,7 +570,7 @@ Proof. vm_compute. split; reflexivity. Qed.
 Lemma refuted_cleared_error :
   let cfg := {| c_batch := 1; c_log := true; c_maxItems := 0; c_rerun := true; c_kill := None |} in
   let obs v := map (fun r => (r_err r, reported (r_log r), r_pending r))
-                   (chain (scripted [0]%Z []) v cfg 60 3 [] 0 (j_init 2)) in
+                   (chain (scripted [0]%Z []) v cfg false 60 3 [] 0 (j_init 2)) in
   obs VCurrent = [(POk, [0], false)]%Z
   /\ obs VResetClears = [(POk, [0], false)]%Z
   /\ obs VFixed = [(PInner 0, [0], true); (POk, [], false)]%Z.
@@ -641,21 +657,21 @@ End LastInv.
 Section BurstProofs.
   Variable inner : nat -> list Z -> option Z.
 
-  Theorem burst_len_bound v cfg : forall fuel n ext queued (st : jstate Z),
-    (Z.of_nat (length (burst inner v cfg fuel n ext queued st))
+  Theorem burst_len_bound v cfg full : forall fuel n ext queued (st : jstate Z),
+    (Z.of_nat (length (burst inner v cfg full fuel n ext queued st))
      <= Z.of_nat ext + Z.of_nat queued + Z.max 0 (j_retries st))%Z.
   Proof.
     induction fuel as [|f IH]; intros n ext queued st; [cbn; lia|].
     cbn [burst].
-    pose proof (run_pending inner v cfg (zseq 0 n) st) as P.
+    pose proof (run_any_pending inner v cfg full (zseq 0 n) st) as P.
     destruct ext as [|e].
     - destruct queued as [|q]; [cbn; lia|].
-      destruct (run inner v cfg (zseq 0 n) st) as [r st'] eqn:R. cbn [fst snd] in P.
+      destruct (run_any inner v cfg full (zseq 0 n) st) as [r st'] eqn:R. cbn [fst snd] in P.
       destruct P as (Hret & Hp & Hnp). cbn [length].
       destruct (r_pending r) eqn:Hpend.
       + destruct (Hp eq_refl) as (_ & Hpos & Hdec & _). specialize (IH n 0 (S q) st'). lia.
       + specialize (Hnp eq_refl). specialize (IH n 0 q st'). lia.
-    - destruct (run inner v cfg (zseq 0 n) st) as [r st'] eqn:R. cbn [fst snd] in P.
+    - destruct (run_any inner v cfg full (zseq 0 n) st) as [r st'] eqn:R. cbn [fst snd] in P.
       destruct P as (Hret & Hp & Hnp). cbn [length].
       destruct (r_pending r) eqn:Hpend.
       + destruct (Hp eq_refl) as (_ & Hpos & Hdec & _). specialize (IH n e (S queued) st'). lia.
@@ -663,14 +679,14 @@ Section BurstProofs.
   Qed.
 
   (** a chain that is not cut off by its fuel ends with a run that schedules nothing *)
-  Lemma chain_last v cfg : forall fuel n adds crons (st : jstate Z),
+  Lemma chain_last v cfg full : forall fuel n adds crons (st : jstate Z),
     (Z.of_nat crons + Z.max 0 (j_retries st) < Z.of_nat fuel)%Z ->
-    exists rs r, chain inner v cfg fuel n adds crons st = rs ++ [r] /\ r_pending r = false.
+    exists rs r, chain inner v cfg full fuel n adds crons st = rs ++ [r] /\ r_pending r = false.
   Proof.
     induction fuel as [|f IH]; intros n adds crons st Hf; [lia|].
     cbn [chain].
-    pose proof (run_pending inner v cfg (zseq 0 n) st) as P.
-    destruct (run inner v cfg (zseq 0 n) st) as [r st'] eqn:R. cbn [fst snd] in P.
+    pose proof (run_any_pending inner v cfg full (zseq 0 n) st) as P.
+    destruct (run_any inner v cfg full (zseq 0 n) st) as [r st'] eqn:R. cbn [fst snd] in P.
     destruct P as (Hret & Hp & Hnp).
     destruct (r_pending r) eqn:Hpend.
     - destruct (Hp eq_refl) as (_ & Hpos & Hdec & _).
